@@ -9,7 +9,7 @@ WS_CRATES = ("rawdb", "vecdb", "verif_fixtures")
 class Body:
     __slots__ = ("id", "krate", "span", "kind", "parent", "root", "pub", "trait_method", "impl_self",
                  "in_trait", "arg_count", "locals", "vars", "blocks", "_succ", "_pred", "_rpo", "_defs",
-                 "_dom", "name_of")
+                 "_dom", "name_of", "hkey")
 
     def __init__(self, j):
         self.id = j["id"]
@@ -31,6 +31,7 @@ class Body:
         self._rpo = None
         self._defs = None
         self._dom = None
+        self.hkey = j.get("hkey", j["id"])
         self.name_of = {}
         for name, place in self.vars:
             if not place["p"]:
@@ -323,3 +324,112 @@ def strip_generics(s):
         elif depth == 0:
             out.append(ch)
     return "".join(out)
+
+
+# ---- virtual inlining of private helpers (a maintainer may move parts of an anchored function into them) ----
+
+def _shift_place(pl, off):
+    out = {"l": pl["l"] + off, "p": []}
+    for e in pl["p"]:
+        if isinstance(e, list) and e[0] == "i":
+            out["p"].append(["i", e[1] + off])
+        else:
+            out["p"].append(e)
+    return out
+
+
+def _shift(x, off):
+    """deep copy of a facts fragment with every local renumbered by +off."""
+    if isinstance(x, dict):
+        if "l" in x and "p" in x and len(x) == 2:
+            return _shift_place(x, off)
+        return {k: _shift(v, off) for k, v in x.items()}
+    if isinstance(x, list):
+        return [_shift(v, off) for v in x]
+    return x
+
+
+def _shift_stmt(st, off):
+    if st[0] in ("dead", "live"):
+        return [st[0], st[1] + off]
+    return [st[0]] + [_shift(v, off) for v in st[1:]]
+
+
+def inline_helpers(P, fn, max_depth=3):
+    """Return a Body for `fn` in which calls to non-public, non-recursive workspace functions of the same impl/module
+    are replaced by the callee's blocks (arguments assigned to the callee's parameters, `return` replaced by an
+    assignment of the result and a jump to the continuation).  Returns the original body when nothing is inlinable."""
+    F = P.bodies[fn]
+    prefix = fn.rsplit("::", 1)[0] + "::"
+    j = {"id": F.id, "krate": F.krate, "span": F.span, "kind": F.kind, "parent": F.parent, "root": F.root, "pub": F.pub,
+         "trait_method": F.trait_method, "impl_self": F.impl_self, "in_trait": F.in_trait, "arg_count": F.arg_count,
+         "locals": list(F.locals), "vars": list(F.vars), "blocks": [dict(b, stmts=list(b["stmts"])) for b in F.blocks],
+         "hkey": F.id + "#inlined"}
+    inlined = []
+    budget = 12
+
+    def eligible(g):
+        G = P.bodies.get(g)
+        if G is None or G.pub or G.kind == "closure" or not g.startswith(prefix) or g == fn:
+            return False
+        # not recursive
+        seen, st = set(), [g]
+        while st:
+            x = st.pop()
+            for _, t in P.bodies[x].calls():
+                kind, tg = P.resolve(t["callee"])
+                if kind == "ws":
+                    for y in tg:
+                        if y == g or y == fn:
+                            return False
+                        if y not in seen and y.startswith(prefix) and len(seen) < 40:
+                            seen.add(y)
+                            st.append(y)
+        return len(G.blocks) <= 400
+
+    depth = {i: 0 for i in range(len(j["blocks"]))}
+    i = 0
+    while i < len(j["blocks"]) and budget > 0:
+        blk = j["blocks"][i]
+        t = blk["term"]
+        if t["k"] == "call" and not blk.get("cleanup") and depth.get(i, 0) < max_depth and t.get("target") is not None:
+            kind, tg = P.resolve(t["callee"])
+            if kind == "ws" and len(tg) == 1 and eligible(tg[0]):
+                G = P.bodies[tg[0]]
+                budget -= 1
+                inlined.append(G.id)
+                loff = len(j["locals"])
+                boff = len(j["blocks"])
+                j["locals"] = j["locals"] + list(G.locals)
+                for name, place in G.vars:
+                    j["vars"].append([name, _shift_place(place, loff)])
+                cont = t["target"]
+                dest = t["dest"]
+                # argument passing
+                for k, a in enumerate(t["args"]):
+                    blk["stmts"].append(["assign", {"l": loff + 1 + k, "p": []}, {"k": "use", "ops": [a]}, t.get("span", "?")])
+                # the call site stays visible to the rules (same callee names); control continues in the callee's blocks
+                nt0 = dict(t)
+                nt0["target"] = boff
+                nt0["inlined"] = True
+                blk["term"] = nt0
+                for gi, gb in enumerate(G.blocks):
+                    nb = {"stmts": [_shift_stmt(s, loff) for s in gb["stmts"]], "cleanup": gb.get("cleanup", False)}
+                    gt = gb["term"]
+                    nt = _shift(gt, loff)
+                    for key in ("target", "unwind", "otherwise"):
+                        if isinstance(gt.get(key), int):
+                            nt[key] = gt[key] + boff
+                    if gt["k"] == "switch":
+                        nt["targets"] = [[v, b + boff] for v, b in gt["targets"]]
+                    if gt["k"] == "return":
+                        nb["stmts"].append(["assign", dest, {"k": "use", "ops": [{"m": {"l": loff, "p": []}}]}, t.get("span", "?")])
+                        nt = {"k": "goto", "target": cont}
+                    nb["term"] = nt
+                    j["blocks"].append(nb)
+                    depth[boff + gi] = depth.get(i, 0) + 1
+        i += 1
+    if not inlined:
+        return F, []
+    B = Body(j)
+    return B, inlined
